@@ -5,12 +5,13 @@ import GoatSpec.Drv.Paths
 import GoatSpec.Drv.Ids
 import GoatSpec.Drv.Config
 import GoatSpec.Drv.Cmd
+import GoatSpec.Drv.Diff
 /-! Line-protocol driver: one request per input line, one answer per output line.
     Handlers live in GoatSpec/Drv/*.lean (`handleX : List String → Option String`). -/
 open GoatSpec GoatSpec.Drv
 
 /-- stateless handlers -/
-def handlers : List (List String → Option String) := [handleText, handleTextFile, handleRuntime, handlePaths, handleIds, handleConfig, handleCmd]
+def handlers : List (List String → Option String) := [handleText, handleTextFile, handleRuntime, handlePaths, handleIds, handleConfig, handleCmd, handleDiff]
 
 /-- `load <abstract file>` keeps one current file for the `marks` / `scopes` / `judge:…` requests
     that follow (a corpus file is loaded once and queried many times) -/
